@@ -1,20 +1,86 @@
 //vf:pkg pkg/core/transaction
 package transaction
 
-import "github.com/nspcc-dev/neo-go/pkg/io"
+import (
+	"errors"
+
+	"github.com/nspcc-dev/neo-go/pkg/crypto/keys"
+	"github.com/nspcc-dev/neo-go/pkg/io"
+)
+
+// vhKeyDecodeFails stands for public-key decoding (curve point decompression is outside the
+// encoding): every encoded key is treated as invalid, which only removes accepting paths.
+func vhKeyDecodeFails(p *keys.PublicKey, r *io.BinReader) {
+	_ = r.ReadB()
+	if r.Err == nil {
+		r.Err = errors.New("public keys are not decoded in this harness")
+	}
+}
 
 // C17 §B: decoding arbitrary bytes as a transaction: no panic; identity (hash, size)
 // must not depend on the path by which the bytes arrived.
 
+// vhVarint emits a count in one of the four accepted prefix forms (only the first is canonical
+// for small values); the value bytes are symbolic.
+func vhVarint(name string) ([]byte, uint64) { return vhVarintForms(name, 3) }
+
+func vhVarintForms(name string, maxForm int) ([]byte, uint64) {
+	switch vfChoose(name+".form", 0, maxForm) {
+	case 0:
+		v := vfU8(name)
+		vfAssume(v < 0xfd)
+		return []byte{v}, uint64(v)
+	case 1:
+		lo, hi := vfU8(name+".lo"), vfU8(name+".hi")
+		return []byte{0xfd, lo, hi}, uint64(lo) | uint64(hi)<<8
+	case 2:
+		lo := vfU8(name + ".lo")
+		return []byte{0xfe, lo, 0, 0, 0}, uint64(lo)
+	default:
+		lo := vfU8(name + ".lo")
+		return []byte{0xff, lo, 0, 0, 0, 0, 0, 0, 0}, uint64(lo)
+	}
+}
+
 //vf:tier quick
 //vf:unwind 40
-//vf:maxpaths 3000
 //vf:hash uf+injective
-//vf:bound buffers of exactly 53..56 symbolic bytes (minimal transaction is 53 bytes); one signer, script of 1 byte up
+//vf:redirect (*github.com/nspcc-dev/neo-go/pkg/crypto/keys.PublicKey).DecodeBinary => github.com/nspcc-dev/neo-go/pkg/core/transaction.vhKeyDecodeFails
+//vf:bound a one-signer, no-attribute, 1-byte-script transaction whose fixed fields, account, scope (None/CalledByEntry/Global), script byte and witness scripts (0..1 bytes) are symbolic and whose four count prefixes each take any of the four accepted varint forms with symbolic value bytes (invocation script length: two forms; verification script length canonical)
 //vf:stub sha256 is an uninterpreted function per input length, assumed injective (collision-free)
 func VF_C17_tx_decode_identity() {
-	n := vfChoose("n", 53, 53+vfTier()*3)
-	b := vfBytes("b", n)
+	b := append([]byte{}, vfBytes("fixed", 25)...)
+	ns, nsv := vhVarint("nsigners")
+	vfAssume(nsv == 1)
+	b = append(b, ns...)
+	b = append(b, vfBytes("account", 20)...)
+	scope := vfU8("scope")
+	vfAssume(scope == 0 || scope == 1 || scope == 0x80)
+	b = append(b, scope)
+	na, nav := vhVarintForms("nattrs", 1+2*vfTier())
+	vfAssume(nav == 0)
+	b = append(b, na...)
+	sl, slv := vhVarint("scriptlen")
+	vfAssume(slv == 1)
+	b = append(b, sl...)
+	b = append(b, vfU8("script"))
+	nw, nwv := vhVarintForms("nwitnesses", 1+2*vfTier())
+	vfAssume(nwv == 1)
+	b = append(b, nw...)
+	il, ilv := vhVarintForms("invlen", 1)
+	vfAssume(ilv <= 1)
+	b = append(b, il...)
+	if ilv == 1 {
+		b = append(b, vfU8("inv"))
+	}
+	vl, vlv := vhVarintForms("verlen", 0)
+	vfAssume(vlv <= 1)
+	b = append(b, vl...)
+	if vlv == 1 {
+		b = append(b, vfU8("ver"))
+	}
+	n := len(b)
+	canonical := len(ns) == 1 && len(na) == 1 && len(sl) == 1 && len(nw) == 1 && len(il) == 1 && len(vl) == 1
 	tx, err := NewTransactionFromBytes(b)
 	if err != nil {
 		return
@@ -27,11 +93,12 @@ func VF_C17_tx_decode_identity() {
 	if r.Err != nil {
 		return
 	}
-	vfKnown("noncanonical-varint", len(tx.Bytes()) != n)
+	vfKnown("noncanonical-varint-accepted", !canonical)
 	vfAssert(tx.Hash() == tx2.Hash(), "hash-path-independent")
 	vfAssert(tx.Size() == tx2.Size(), "size-path-independent")
 	enc := tx2.Bytes()
 	vfAssert(len(enc) == tx2.Size(), "size==len(encoding)")
+	vfAssert(!canonical || len(enc) == n, "canonical-input-reencodes-to-itself")
 	tx3, err3 := NewTransactionFromBytes(enc)
 	vfAssert(err3 == nil, "reencoding-decodes")
 	if err3 == nil {
